@@ -23,7 +23,7 @@ META = {
         "export reaches a comment line only through a line-break sanitiser inside the comment formatter (recognised "
         "idioms: replace / split with a pattern containing both \\n and \\r, a chars() filter/map on those, split_whitespace; "
         "`lines()` is not one — it leaves a lone \\r, which the grammar reads as a line break). R5: the "
-        "output is sorted by a stable sort keyed by the row date. Does not decide row-order independence or chunking. R3 also: the keyword of a trade line agrees with the kind of the row, and the CLI prints nothing derived from the warnings to standard output. R2 also: the vector of output lines is never thinned (dedup/retain/…), also when it is filled through a helper. R3 also: an amount printed into an optional FEES/TAX clause is positive on the path that prints it (`> 0` guard, `Option::filter(|v| *v > 0)`, or abs) — the grammar's numbers carry no sign. R1 also: every action name the row classifier lists reaches the arm it is listed under (no guard arm above shadows a literal). R2 also: sibling parsed-row structures receive `symbol` through the same normalisation (trim/case), so rows joined by (date, symbol) meet."),
+        "output is sorted by a stable sort keyed by the row date. Does not decide row-order independence or chunking. R3 also: the keyword of a trade line agrees with the kind of the row, and the CLI prints nothing derived from the warnings to standard output. R2 also: the vector of output lines is never thinned (dedup/retain/…), also when it is filled through a helper. R3 also: an amount printed into an optional FEES/TAX clause is positive on the path that prints it (`> 0` guard, `Option::filter(|v| *v > 0)`, or abs) — the grammar's numbers carry no sign. R1 also: every action name the row classifier lists reaches the arm it is listed under (no guard arm above shadows a literal). R2 also: sibling parsed-row structures receive `symbol` through the same normalisation (trim/case), so rows joined by (date, symbol) meet. R6: no explicit may-panic call and no undischarged bounds/overflow assertion in converter code (shared with C15-R1/R2) — a row whose text makes the converter panic is neither converted, skipped nor surfaced."),
     # R6 is described in run(): no may-panic construct in converter code (shared with C15-R1/R2)
     "trusted_base": ["str::replace/lines/chars semantics", "Vec::sort_by_key is stable", "rustc MIR + resolution",
                      "precondition of the property: symbols are alphanumeric (symbols are not sanitised)"],
